@@ -41,6 +41,7 @@ struct Scenario {
     std::vector<std::string> files;
     std::atomic<int> issued{0};
     unsigned base = 0;
+    bool foreignInsideHandler = false;   // the handler itself starts a thread that issues the foreign writes, joins it, then writes from the loop thread
 };
 struct PeerInfo { int fd = -1; std::shared_ptr<Tcp::Peer> peer; std::string inbuf; int connections = 0, disconnections = 0; };
 static std::mutex g_m;
@@ -87,6 +88,12 @@ public:
                 auto it = g_scen.find(port); sc = it == g_scen.end() ? nullptr : it->second; break; }
         }
         if (cmd == "GO" && sc) {
+            if (sc->foreignInsideHandler) {
+                // happens-before is explicit: the foreign thread's writes are issued (and the thread joined) before the loop thread's
+                Tcp::Transport* tr = transport(); int fd = peer->fd();
+                std::thread t([&] { for (size_t i = 0; i < sc->writes.size(); i++) if (sc->writes[i].foreign) issue_write(tr, fd, sc, i); });
+                t.join();
+            }
             for (size_t i = 0; i < sc->writes.size(); i++) if (!sc->writes[i].foreign) issue_write(transport(), peer->fd(), sc, i);
         } else if (cmd == "PING") {
             transport()->asyncWrite(peer->fd(), RawBuffer(std::string("PONG!"), 5));
@@ -113,8 +120,9 @@ static std::string script_text(const std::vector<lv::Act>& s) { std::string t; f
 static std::string spec_text(const std::vector<WriteSpec>& w) { std::string t; for (auto& x : w) t += std::string(x.file ? "file" : "mem") + (x.foreign ? "@thread" : "@loop") + ":" + std::to_string(x.size) + " "; return t; }
 
 // run one scripted connection; returns false on harness trouble (inconclusive)
-static bool c06_connection(Server& srv, long idx, const std::vector<WriteSpec>& writes, const std::vector<lv::Act>& script, bool foreignFirst, int rcvbuf, int readerPauseMs, unsigned base) {
-    Scenario sc; sc.writes = writes; sc.base = base;
+static bool c06_connection(Server& srv, long idx, const std::vector<WriteSpec>& writes, const std::vector<lv::Act>& script, bool foreignFirst, int rcvbuf, int readerPauseMs, unsigned base, bool insideHandler = false) {
+    Scenario sc; sc.writes = writes; sc.base = base; sc.foreignInsideHandler = insideHandler;
+    if (insideHandler) foreignFirst = true;
     size_t total = 0;
     for (size_t i = 0; i < writes.size(); i++) {
         sc.recs.emplace_back(new WriteRec());
@@ -149,7 +157,8 @@ static bool c06_connection(Server& srv, long idx, const std::vector<WriteSpec>& 
     std::string expect; for (size_t i : order) expect += tagged(base + (unsigned)i, writes[i].size);
     size_t nLoop = 0; for (auto& w : writes) if (!w.foreign) nLoop++;
     std::thread helper;
-    if (foreignFirst) { foreign(); c.send_all("GO\n"); }
+    if (insideHandler) c.send_all("GO\n");
+    else if (foreignFirst) { foreign(); c.send_all("GO\n"); }
     else { c.send_all("GO\n"); wait_for([&] { return sc.issued.load() >= (int)nLoop; }, 5.0); foreign(); }
     if (readerPauseMs) lv::msleep(readerPauseMs);
     std::string got;
@@ -198,7 +207,7 @@ static bool c06_connection(Server& srv, long idx, const std::vector<WriteSpec>& 
     if (!key.empty()) violation(key, "writes [" + shape + "] with socket outcomes [" + script_text(script) + "]: " + key.substr(4), wt);
     std::string faults; for (auto& a : script) faults += a.kind == lv::A_PASS ? 'F' : a.kind == lv::A_EAGAIN ? 'E' : 'S';
     std::string wk; for (auto& w : writes) wk += std::string(w.file ? "f" : "m") + (w.foreign ? "t" : "l") + (w.size <= 1 ? "1" : w.size < 4096 ? "s" : w.size == 4096 ? "p" : w.size < 100000 ? "m" : "L");
-    g_distinct.add(wk + "|" + faults + "|" + (rcvbuf ? "bp" : "") );
+    g_distinct.add(wk + "|" + faults + "|" + (rcvbuf ? "bp" : "") + (insideHandler ? "|ih" : ""));
     count("connections");
     if (g_samples_left > 0 && (idx % 101) == 7) { g_samples_left--; sample(Json().str("writes", shape).str("script", script_text(script)).num("bytes", (long long)total).done()); }
     { std::lock_guard<std::mutex> g(g_m); g_scen.erase(c.localPort); }
@@ -232,7 +241,7 @@ static void run_c06(long cases) {
             if (enumIndex % g_opts.nshards != g_opts.shard) continue;
             std::vector<lv::Act> script; long c = code;
             for (int k = 0; k < K; k++) { int a = (int)(c % 4); c /= 4; script.push_back(a == 0 ? lv::Act{lv::A_PASS, 0} : a == 1 ? lv::Act{lv::A_SHORT, 1} : a == 2 ? lv::Act{lv::A_SHORT, 1500} : lv::Act{lv::A_EAGAIN, 0}); }
-            c06_connection(srv, idx++, shapes[s], script, s == 4 && (code & 1), 0, 0, base); base += 8;
+            c06_connection(srv, idx++, shapes[s], script, s == 4 && (code & 1), 0, 0, base, s == 4 && (code & 2)); base += 8;
             count("enumerated_fault_scripts");
         }
     // (2) seeded random long scripts and sizes
@@ -243,7 +252,7 @@ static void run_c06(long cases) {
         for (int i = 0; i < nw; i++) { size_t sz = r.chance(1, 2) ? r.pick(SZ) : (size_t)r.range(1, 200000); if (sz > 100000 && nw > 3) sz = 70000; bool foreign = r.chance(1, 4); ws.push_back({sz, !foreign && r.chance(1, 4), foreign}); }
         std::vector<lv::Act> script; int sl = r.range(0, 24);
         for (int k = 0; k < sl; k++) { int a = r.range(0, 3); script.push_back(a == 0 ? lv::Act{lv::A_PASS, 0} : a == 3 ? lv::Act{lv::A_EAGAIN, 0} : lv::Act{lv::A_SHORT, (size_t)r.range(1, 70000)}); }
-        c06_connection(srv, idx++, ws, script, r.chance(1, 2), 0, 0, base); base += 8;
+        c06_connection(srv, idx++, ws, script, r.chance(1, 2), 0, 0, base, r.chance(1, 3)); base += 8;
         count("random_fault_scripts");
     }
     // (3) real kernel back-pressure: small receive buffer, reader pauses
